@@ -11,6 +11,31 @@ from .drive import qT
 MAXCELLS = 30
 
 
+def tag_walls(r, case):
+    """Attach to every region of a reactor the duct flat-to-flat values of
+    its assembly type as given in the input, so that wall thicknesses come
+    from the input rather than from what the region recorded."""
+    for a in r.assemblies:
+        t = case['types'].get(a.name)
+        if t is None:
+            continue
+        for reg in a.region:
+            reg._verif_walls = sorted(float(x) for x in t['duct_ftf'])
+
+
+def wall_thickness(reg, i=None):
+    """Thickness of duct wall i (None: the outermost wall) from the input
+    if known, else from the region."""
+    w = getattr(reg, '_verif_walls', None)
+    if w is None:
+        if i is None:
+            return float(reg.duct_thickness)
+        return float(reg.duct_params['thickness'][i])
+    if i is None:
+        return (w[-1] - w[-2]) / 2
+    return (w[2 * i + 1] - w[2 * i]) / 2
+
+
 def _pick(n):
     if n <= MAXCELLS:
         return list(range(n))
@@ -140,7 +165,7 @@ class DuctRecorder:
             else:
                 T_out = pre['coolant_byp'][i]
                 h_out = h_byp[i][didx]
-            Lw = float(reg.duct_params['thickness'][i])
+            Lw = wall_thickness(reg, i)
             if p_duct is None:
                 qtp = np.zeros(ndc)
             else:
@@ -166,7 +191,7 @@ class DuctRecorder:
         T_in = pre['coolant_int']
         if np.size(T_in) == 1:
             T_in = np.full(6, float(T_in[0]))
-        Lw = float(reg.duct_thickness)
+        Lw = wall_thickness(reg)
         k_pre = drive.mat_props(reg.duct, avg_mw[0]).thermal_conductivity
         k_post = drive.mat_props(
             reg.duct, float(reg.avg_duct_mw_temp[0])).thermal_conductivity
